@@ -564,7 +564,7 @@ def generate(ctx):
         n = rng.randint(0, 12)
         yield "roll1d", {"cs": rand_comp(rng, n), "shift": rng.randint(-30, 30)}
     # --- function level: reshape helpers ------------------------------------------------------------------
-    for _ in range(ctx.n(400, 6000)):
+    for _ in range(ctx.n(300, 6000)):
         r = rng.random()
         if r < 0.3:
             yield "fn", {"op": "expand", "cs": [rng.randint(1, 40) for _ in range(rng.randint(1, 6))], "f": rng.randint(1, 12)}
@@ -591,7 +591,7 @@ def generate(ctx):
                 tgt[k] = math.prod(shape) // max(rest, 1)
             yield "fn", {"op": "reshape_rechunk", "inchunks": chunks, "outshape": tgt}
     # --- concatenate / stack -------------------------------------------------------------------------------
-    for _ in range(ctx.n(150, 2000)):
+    for _ in range(ctx.n(110, 2000)):
         nd = rng.randint(1, 3)
         base = [rng.randint(1, 5) for _ in range(nd)]
         k = rng.randint(1, 4)
@@ -620,7 +620,7 @@ def generate(ctx):
             i += k
         yield "op", {"op": "shuffle", "chunks": [rand_comp(rng, n)], "axis": 0, "groups": groups}
     # --- every operation, API level ------------------------------------------------------------------------
-    for _ in range(ctx.n(360, 6000)):
+    for _ in range(ctx.n(280, 6000)):
         yield "op", _gen_op(rng)
     if ctx.thorough():
         # all chunkings of small 2-d shapes through reshape / transpose / pad
